@@ -11,6 +11,10 @@
             apdu_total(old(self).source.inbox()) is None ==> r is Err,
     //@ tag io.read.undecodable C06
             (apdu_total(old(self).source.inbox()) matches Some(tot) && T::parse_spec(old(self).source.inbox().take(tot)) is None) ==> r is Err,
+    //@ tag io.read.complete C04 C05
+            // a complete, decodable packet at the head of the stream IS returned (unless the connection itself fails)
+            final(self).source.reliable() == old(self).source.reliable(),
+            (apdu_total(old(self).source.inbox()) matches Some(tot) && old(self).source.reliable() && T::parse_spec(old(self).source.inbox().take(tot)) is Some) ==> r is Ok,
     //@ include $GHOST
     //@ end
 
@@ -20,6 +24,9 @@
             final(self).source.writes() == old(self).source.writes().push((msg.zs_spec(), old(self).source.consumed())),
             final(self).source.inbox() == old(self).source.inbox(),
             final(self).source.consumed() == old(self).source.consumed(),
+    //@ tag io.write.complete C04 C05
+            final(self).source.reliable() == old(self).source.reliable(),
+            old(self).source.reliable() ==> r is Ok,
     //@ end
 
     //@ fn src:zvt/src/io.rs | impl PacketTransport<S> | read_packet_with_ack | $MODE props=C04,C05
@@ -33,6 +40,9 @@
             (apdu_total(old(self).source.inbox()) is None
                 || (apdu_total(old(self).source.inbox()) matches Some(tot) && T::parse_spec(old(self).source.inbox().take(tot)) is None))
               ==> (r is Err && final(self).source.writes() == old(self).source.writes()),
+    //@ tag io.readack.complete C05
+            final(self).source.reliable() == old(self).source.reliable(),
+            (apdu_total(old(self).source.inbox()) matches Some(tot) && old(self).source.reliable() && T::parse_spec(old(self).source.inbox().take(tot)) is Some) ==> r is Ok,
     //@ end
 
     //@ fn src:zvt/src/io.rs | impl PacketTransport<S> | write_packet_with_ack | $MODE props=C04,C05
@@ -48,4 +58,7 @@
             (apdu_total(old(self).source.inbox()) is None
                 || (apdu_total(old(self).source.inbox()) matches Some(tot) && Ack::parse_spec(old(self).source.inbox().take(tot)) is None))
               ==> r is Err,
+    //@ tag io.writeack.complete C05
+            final(self).source.reliable() == old(self).source.reliable(),
+            (apdu_total(old(self).source.inbox()) matches Some(tot) && old(self).source.reliable() && Ack::parse_spec(old(self).source.inbox().take(tot)) is Some) ==> r is Ok,
     //@ end
